@@ -452,6 +452,14 @@ func Walk(v Visitor, node Node) {
 	case *EnvExpr:
 		Walk(v, n.Name)
 
+	case *MatrixLit:
+		for _, row := range n.Elts {
+			walkList(v, row)
+		}
+
+	case *ElemEllipsis:
+		Walk(v, n.Elt)
+
 	default:
 		panic(fmt.Sprintf("ast.Walk: unexpected node type %T", n))
 	}
